@@ -6,6 +6,7 @@ import ast
 from sa.engine.callgraph import calls_in, reachable_functions, resolve_call
 from sa.engine.cfg import CFG, default_may_raise, normally_dominates
 from sa.engine.context import Ctx
+from sa.engine.guards import path_conditions
 from sa.engine.loader import AnalysisError, FuncInfo, dotted, norm, short, walk_own, is_noise
 from sa.engine.loops import LoopAnalysis
 from sa.engine.report import Finding, RuleReport
@@ -262,6 +263,28 @@ def rule_wrap(ctx: Ctx) -> RuleReport:
                     rep.fail(Finding("C01-WRAP", INIT, "read_file", short(y), "read_file yields outside its translating try", line=y.lineno))
     if not ok:
         rep.fail(Finding("C01-WRAP", INIT, "read_file", "try/except around the extractor loop", "read_file no longer re-wraps foreign exceptions raised while the extractor is iterated", line=rf.node.lineno))
+    # what read_file raises by itself, for what the *file* is (size, content), is of the family too: only a complaint about an argument
+    # of the call (a condition over the parameters alone) may be a ValueError / TypeError
+    rf_params = {a.arg for a in rf.node.args.args + rf.node.args.kwonlyargs}
+    for r in [n for n in walk_own(rf.node) if isinstance(n, ast.Raise) and n.exc is not None]:
+        cls = raised_class(r)
+        if cls in family or cls is None:
+            rep.ok({"read_file": f"raise {cls}"})
+            continue
+        conds, opaque, _ = path_conditions(rf.node, r)
+        names = set()
+        for c in [str(x) for x in conds] + list(opaque):
+            try:
+                names |= {x.id for x in ast.walk(ast.parse(c, mode="eval")) if isinstance(x, ast.Name)}
+            except SyntaxError:
+                names.add("?")
+        import builtins as _b
+
+        foreign = {x for x in names if x not in rf_params and not hasattr(_b, x)}
+        if foreign:
+            rep.fail(Finding("C01-WRAP", INIT, "read_file", f"raise {cls} on a property of the file", f"read_file raises {cls} under a condition over {sorted(foreign)} -- something read from the file, not an argument of the call: for such a file an exception outside the ExtractionError family escapes", line=r.lineno))
+        else:
+            rep.ok({"read_file": f"raise {cls} on an argument check"})
     pe = ctx.p.func(ARCH, "_process_archive_entry")
     rep.unit(pe.key)
     check_swallow(ctx, rep, pe, family, "archive member")
